@@ -51,13 +51,18 @@ def record_lengths(P, big):
     return sorted({x for x in (2, 3, P - 1, P, P + 1, 2 * P, 2 * P + 1, 3 * P) if x >= 2})
 
 
-def make_records(lengths):
-    return [L.position_coded(r, n) for r, n in enumerate(lengths)]
+def make_records(lengths, content=None):
+    recs = [L.position_coded(r, n) for r, n in enumerate(lengths)]
+    if content == 'zeros':
+        # records that begin with zero bytes (a type 0 record with a zero attribute byte and zero data): in a file without
+        # TIF markers the second 32 bit word of the file is then zero, as a TIF marker's would be
+        recs = [b'\0' * min(6, len(r)) + r[6:] for r in recs]
+    return recs
 
 
 def ref_file(cfg):
     tr = cfg['trailer']
-    recs = make_records(cfg['lengths'])
+    recs = make_records(cfg['lengths'], cfg.get('content'))
     return L.build_file(recs, cfg['maxlen'], bool(tr[0]), cfg.get('filenum', 7) if tr[1] else None, bool(tr[2]), cfg['tif']) + (recs,)
 
 
@@ -67,7 +72,7 @@ def ref_file(cfg):
 def check_writer(cfg):
     from TotalDepth.LIS.core import File, PhysRec
     tr = cfg['trailer']
-    recs = make_records(cfg['lengths'])
+    recs = make_records(cfg['lengths'], cfg.get('content'))
     bad = []
     out = io.BytesIO()
     try:
@@ -323,6 +328,8 @@ def gen_writer_cfgs(tier):
                     for filenum in (0, 1, 65535):
                         for lengths in lists[:12]:
                             yield {'trailer': list(tr), 'maxlen': maxlen, 'tif': tif, 'lengths': lengths, 'filenum': filenum}
+                for lengths in lists[:12]:
+                    yield {'trailer': list(tr), 'maxlen': maxlen, 'tif': tif, 'lengths': lengths, 'content': 'zeros'}
 
 
 def gen_reader_cfgs(tier):
@@ -346,6 +353,10 @@ def gen_reader_cfgs(tier):
                     if tif == 'reversed' and first_pr + 12 == 0x100:
                         continue
                     yield {'trailer': list(tr), 'maxlen': maxlen, 'tif': tif, 'lengths': lengths}
+                for lengths in (lists if tier == 'thorough' else lists[:len(lens)] + lists[-2:]):
+                    if tif == 'reversed' and min(lengths[0], P) + 4 + tlen(tr) + 12 == 0x100:
+                        continue
+                    yield {'trailer': list(tr), 'maxlen': maxlen, 'tif': tif, 'lengths': lengths, 'content': 'zeros'}
 
 
 def shards(tier):
